@@ -653,10 +653,16 @@ pub fn run(args: Args) {
     run.assume("the DN of an LDAP result (which carries the entry's spn) and DN-valued references are not attributes of the entry and are not judged; counted under ldap.dn_carries_spn_without_name_or_spn_grant");
     let seed = args.seed;
     let tier = args.tier;
-    let configs_per_worker = tier.pick(8usize, 280usize);
+    let configs_per_worker = tier.pick(8usize, 200usize);
     let queries_per_config = tier.pick(220u64, 400u64);
     let ldap_per_config = tier.pick(40u64, 80u64);
-    run.parallel(args.workers, |w, _n| {
+    // --replay <file>: re-run exactly the configuration of the witness (its config_seed)
+    let replay_seed: Option<u64> = args
+        .replay
+        .as_ref()
+        .and_then(|p| kvcore::run::load_replay(p))
+        .and_then(|w| w.get("config_seed").and_then(|v| v.as_u64()));
+    run.parallel(if replay_seed.is_some() { 1 } else { args.workers }, |w, _n| {
         let mut acc = Acc::new();
         let rt = kvcore::srv::rt();
         if w == 0 {
@@ -665,8 +671,8 @@ pub fn run(args: Args) {
                 acc.sample(json!({"panic": msg, "where": "minimal ldap case"}));
             }
         }
-        for c in 0..configs_per_worker {
-            let cseed = mix(seed, w as u64, 2300 + c as u64);
+        for c in 0..(if replay_seed.is_some() { 1 } else { configs_per_worker }) {
+            let cseed = replay_seed.unwrap_or_else(|| mix(seed, w as u64, 2300 + c as u64));
             let mut rng = Rng::new(cseed);
             let mut sv = rt.block_on(Server::new());
             let n_acps = 1 + rng.below(6) as usize;
